@@ -181,28 +181,29 @@ PROPS['C12'] = {
     'trusted': _KX_TRUST,
 }
 
-_AGENT_TRUST = ['vstd specifications of BTreeMap (insert/remove/get/get_mut/contains_key) and HashSet (insert/contains) with the key-model axioms for TransactionId (derived Ord) and SocketAddr',
+_AGENT_TRUST = ['BTreeMap::values_mut / ValuesMut::next (shims/btree_values_mut.rs): trusted axioms - the iterator hands out a mutable reference to the value of each not yet visited key, exactly once; the map after the borrow is the map before it with the values written through those references (prophetic abstract state, resolved by Verus has_resolved when the iterator dies, the pattern vstd uses for hash-map Entry); the visiting order is not specified', 'rule R13: a `for` loop is its Rust-reference definition loop { match it.next() { None => break, Some(x) => body } }', 'Option::map_or, Result::and_then (shims/std.rs)', 'vstd specifications of BTreeMap (insert/remove/get/get_mut/contains_key) and HashSet (insert/contains) with the key-model axioms for TransactionId (derived Ord) and SocketAddr',
                 'Instant/Duration as an integer nanosecond axis (shims/time.rs: Instant + Duration, Duration * u32, Duration + Duration, as_millis, Duration::ZERO, 2u32.pow(e) for e < 32 are the mathematical operations within stated bounds); cross-checked against real Timespec arithmetic by KX k06_request_poll (thorough) and by BX on the configuration grid',
                 'dependency stand-ins (shims/deps_agent.rs): MessageBuilder::{build,transaction_id,has_class,has_attribute}, Message::{is_response,transaction_id,validate_integrity} are uninterpreted - the agent is verified for whatever they return',
                 'DataSlice::to_owned copies the bytes (external_body: Box<[u8]>::from(&[u8]) has no vstd spec); tracing macros dropped (R1)']
 _AGENT_FNS_ALL = None
 PROPS['C05'] = {
-    'level': 'exploration',
+    'level': 'proof',
     'vx': [{'unit': 'agent'}],
     'kx': ['k06_request_poll'],
     'bx': ['c05'],
-    'rule': 'Verus VCs of unit agent (whole-view postconditions of send / handle_stun / take_outstanding_request / request_transaction / cancel / StunRequestState::poll and the exactly-once theorem); BX for StunAgent::poll.',
+    'rule': 'Verus VCs of unit agent: whole-view postconditions of every public operation incl. StunAgent::poll (rule R13) and the exactly-once theorem over them; BX as bounded cross-check and witness finder.',
     'proved': ['send: duplicate id => AlreadyInProgress and the map is unchanged; fresh id => inserted; non-requests leave the map unchanged',
                'handle_stun: unknown id => Drop, nothing changes; delivered => id was outstanding and is removed; Drop => whole map unchanged (=~=)',
                'request_transaction(t).is_some() <=> t outstanding; cancel sets exactly the two flags of that transaction',
                'StunRequestState::poll: Cancelled iff flags, TimedOut/WaitUntil/SendData per schedule; nothing but (timeout_i, last_send_time) changes',
-               'theorem_exactly_once / lemma_not_outstanding_stays: between two completions of an id there is a successful send of it; while not outstanding no transmission, delivery or completion for it occurs'],
-    'bounded': ['StunAgent::poll (for .. in values_mut(): no Verus spec for the BTreeMap iterator) turns a per-request verdict into removal: BX, step by step against the abstract agent - EXHAUSTIVELY for every call history of length <= 4 (quick) / <= 5 (thorough, UDP and TCP) over a 13-operation alphabet (two transactions, polls early/exact/late, three kinds of response, cancel, cancel_retransmissions, configure of either transaction, set credentials), plus random histories of 3..14 (every 50th: 200) operations over the full alphabet'],
+               'theorem_exactly_once / lemma_not_outstanding_stays: between two completions of an id there is a successful send of it; while not outstanding no transmission, delivery or completion for it occurs',
+               '(rules R13 + trusted ValuesMut axioms, shims/btree_values_mut.rs) StunAgent::poll for any number of outstanding transactions: WaitUntil(t) iff every outstanding transaction answers WaitUntil - then nothing changes and t is the earliest of their due instants; SendData iff it carries byte-for-byte the captured request and 5-tuple of an outstanding transaction whose verdict is `send`, only that transaction\'s schedule position and last transmission instant change; TransactionCancelled(k) / TransactionTimedOut(k) iff k is outstanding with that verdict, and exactly k is removed; validated peers, configuration and the representation invariant are kept'],
+    'bounded': ['(StunAgent::poll is PROVED since the third session; cross-check of the trusted ValuesMut axioms and of the whole-history statement:) BX, step by step against the abstract agent - EXHAUSTIVELY for every call history of length <= 4 (quick) / <= 5 (thorough, UDP and TCP) over a 13-operation alphabet (two transactions, polls early/exact/late, three kinds of response, cancel, cancel_retransmissions, configure of either transaction, set credentials), plus random histories of 3..14 (every 50th: 200) operations over the full alphabet'],
     'trusted': _AGENT_TRUST + _KX_TRUST,
 }
 PROPS['C06'] = {
-    'level': 'exploration',
-    'vx': [{'unit': 'agent', 'functions': ['StunRequestState :: poll', 'StunRequestState :: new', 'cancel_retransmissions', 'impl StunAgent :: send', 'mut_request_state', 'theorem_default_schedule_numbers', 'configure_timeout', 'lemma_pow2_le', 'lemma_pow2_8', 'lemma_mul_bound', 'lemma_geo_step']}],
+    'level': 'proof',
+    'vx': [{'unit': 'agent', 'functions': ['StunRequestState :: poll', 'StunRequestState :: new', 'cancel_retransmissions', 'impl StunAgent :: send', 'mut_request_state', 'theorem_default_schedule_numbers', 'configure_timeout', 'lemma_pow2_le', 'lemma_pow2_8', 'lemma_mul_bound', 'lemma_geo_step', 'impl StunAgent :: poll', 'lemma_wait_until_law', 'into_owned']}],
     'kx': ['k06_request_poll'],
     'bx': ['c06'],
     'rule': 'Verus VCs of StunRequestState::{new,poll} for schedules of any length and of StunRequestMut::configure_timeout (rule R11); BX for the agent-level minimum.',
@@ -212,7 +213,8 @@ PROPS['C06'] = {
                'theorem_default_schedule_numbers: with the defaults that new installs and the due rule of poll, on-time service transmits at 0, 0.5, 1.5, 3.5, 7.5, 15.5, 31.5 s and times out at 39.5 s; each interval doubles'],
     'proved_extra': ['(rule R11: `(0..retransmits).map(..).collect()` and `.fold(..)` replaced by their defining loops) StunRequestMut::configure_timeout for rto <= 60 s, retransmits <= 8, last timeout <= 60 s: UDP schedule of exactly `retransmits` entries, the i-th being initial_rto * 2^i in whole milliseconds, final timeout = last_retransmit_timeout; TCP: empty schedule and timeout = last_retransmit_timeout + initial_rto * (2^retransmits - 1); nothing else of the transaction (position in the schedule, last transmission instant, flags, message, addresses) and no other transaction changes; Duration arithmetic through trusted axioms (shims/time.rs)',
                      'poll is verified without any bound on the schedule position, so also for a transaction whose schedule was shortened below its position by configure_timeout'],
-    'bounded': ['configure_timeout: also BX exhaustive over rto x retransmits 0..=8 x last timeout grid (cross-check of the Duration axioms)', 'StunAgent::poll minimum over transactions / event at t (incl. the generic law: after WaitUntil(t) an earlier poll repeats t without an event, a poll at or after t yields one): BX with 1..3 concurrent transactions, exhaustive small-scope histories + random ones'],
+    'proved_extra2': ['(rules R13 + trusted ValuesMut axioms, shims/btree_values_mut.rs) StunAgent::poll for any number of outstanding transactions: WaitUntil(t) iff every outstanding transaction answers WaitUntil - then nothing changes and t is the earliest of their due instants; SendData iff it carries byte-for-byte the captured request and 5-tuple of an outstanding transaction whose verdict is `send`, only that transaction\'s schedule position and last transmission instant change; TransactionCancelled(k) / TransactionTimedOut(k) iff k is outstanding with that verdict, and exactly k is removed; validated peers, configuration and the representation invariant are kept', 'lemma_wait_until_law: after WaitUntil(t) with no call in between, an earlier poll finds every transaction waiting for the same instants (so it answers the same t without an event) and a poll at or after t finds a transaction that needs service (so it yields an event)'],
+    'bounded': ['configure_timeout: also BX exhaustive over rto x retransmits 0..=8 x last timeout grid (cross-check of the Duration axioms)', '(the agent-level minimum and the WaitUntil law are PROVED since the third session) cross-check by BX: StunAgent::poll minimum over transactions / event at t (incl. the generic law: after WaitUntil(t) an earlier poll repeats t without an event, a poll at or after t yields one): BX with 1..3 concurrent transactions, exhaustive small-scope histories + random ones'],
     'trusted': _AGENT_TRUST + _KX_TRUST,
 }
 PROPS['C07'] = {
@@ -229,23 +231,25 @@ PROPS['C07'] = {
 }
 PROPS['C15'] = {
     'level': 'proof',
-    'vx': [{'unit': 'agent', 'functions': ['handle_stun', 'validated_peer', 'is_validated_peer', 'impl StunAgent :: send', 'take_outstanding_request', 'cancel', 'mut_request_state', 'theorem_peers', 'set_remote_credentials', 'set_local_credentials', 'mut_request_transaction']}],
+    'vx': [{'unit': 'agent', 'functions': ['handle_stun', 'validated_peer', 'is_validated_peer', 'impl StunAgent :: send', 'take_outstanding_request', 'cancel', 'mut_request_state', 'theorem_peers', 'set_remote_credentials', 'set_local_credentials', 'mut_request_transaction', 'impl StunAgent :: poll']}],
     'bx': ['c15'],
     'rule': 'Verus VCs of unit agent: whole-set postconditions on validated_peers and theorem_peers.',
     'proved': ['peers\' == peers + {from} exactly on IncomingStun / StunResponse exits; peers unchanged on Drop, in send, cancel, cancel_retransmissions, take_outstanding_request',
                'is_validated_peer(a) <=> a in peers', 'theorem_peers: monotone; validated exactly by an Incoming/Deliver event from that address'],
-    'bounded': ['StunAgent::poll does not touch the set: BX (frame is evident: poll never names validated_peers)'],
+    'bounded': ['BX agent histories (cross-check)'],
+    'proved_extra': ['StunAgent::poll leaves the validated-peer set unchanged (postcondition, rule R13)'],
     'trusted': _AGENT_TRUST,
 }
 PROPS['C18'] = {
-    'level': 'exploration',
-    'vx': [{'unit': 'agent', 'functions': ['StunRequestState :: new', 'StunRequestState :: poll', 'impl StunAgent :: send', 'send_data', 'Transmit', 'peer_address', 'request_state', 'into_owned', 'to_owned', 'deref']}],
+    'level': 'proof',
+    'vx': [{'unit': 'agent', 'functions': ['StunRequestState :: new', 'StunRequestState :: poll', 'impl StunAgent :: send', 'send_data', 'Transmit', 'peer_address', 'request_state', 'into_owned', 'to_owned', 'deref', 'impl StunAgent :: poll']}],
     'kx': ['k06_request_poll'],
     'bx': ['c18'],
     'rule': 'Verus VCs of unit agent (bytes captured once, SendData carries them unchanged with the same 5-tuple).',
     'proved': ['StunRequestState::new: bytes == build(request), to/from/transport as given', 'poll: SendData == (bytes, transport, from, to); these fields never change',
                'send: returns Transmit(build(msg), transport, local_addr, to) for requests and non-requests; non-requests leave no transaction', 'peer_address == out[t].to'],
-    'bounded': ['StunAgent::poll forwards the per-request Transmit: BX'],
+    'bounded': ['BX agent histories (cross-check of the trusted ValuesMut axioms; witness finder)'],
+    'proved_extra': ['(rules R13 + trusted ValuesMut axioms, shims/btree_values_mut.rs) StunAgent::poll for any number of outstanding transactions: WaitUntil(t) iff every outstanding transaction answers WaitUntil - then nothing changes and t is the earliest of their due instants; SendData iff it carries byte-for-byte the captured request and 5-tuple of an outstanding transaction whose verdict is `send`, only that transaction\'s schedule position and last transmission instant change; TransactionCancelled(k) / TransactionTimedOut(k) iff k is outstanding with that verdict, and exactly k is removed; validated peers, configuration and the representation invariant are kept'],
     'trusted': _AGENT_TRUST + _KX_TRUST,
 }
 PROPS['C20'] = {
@@ -255,7 +259,8 @@ PROPS['C20'] = {
     'rule': 'closed-world Verus verification of agent.rs functions (a call to an unspecified function is an unsupported construct; ambient sources on the deny-list are reported as C20 violations) + BX shifted replay.',
     'proved': ['every extracted agent function is verified against contracts that mention only its arguments and the agent state: results are functions of (state, arguments); time enters only through `now`',
                'lemma_poll_shift: the verdict function that StunRequestState::poll is proved to implement commutes with shifting every instant by a constant'],
-    'bounded': ['whole-agent shifted replay, second instance, other thread, unrelated agents alongside: BX'],
+    'bounded': ['whole-agent shifted replay, second instance, other thread, unrelated agents alongside: BX (the proved contract of StunAgent::poll deliberately leaves open WHICH of several due transactions is served first, so equality of replies between instances - the D7 clause - is decided by BX only); StunAgentBuilder::build (global AtomicUsize feeding the debug id): outside'],
+    'proved_extra': ['StunAgent::poll is verified in the same closed world (rule R13): its reply and the state it leaves are constrained by (state, now) only'],
     'trusted': _AGENT_TRUST + _KX_TRUST,
 }
 
@@ -321,8 +326,8 @@ LEVEL_TEXT = {
  'C02': "Proof: `Message::from_bytes` is verified `Ok <==> wf_message(bytes)` for buffers of every length against a recursive spec predicate written from the statement (not from the code); header fields, the exposed attribute stream (iterator) and the header/declared-length error cases are postconditions; each interior rejection (attribute after integrity / after fingerprint with its type, fingerprint mismatch) is proved to point at a real witness in the buffer (unit parsecause). The lookups raw_attribute / has_attribute / attribute::<A>() are proved as well (rule R11 replaces the iterator adaptors find / any by their defining loops, the closures of the real code verbatim): they answer with the first attribute of the type in the exposed stream. Which of several applicable causes is reported is decided by the bounded differential against an independent reference decoder.",
  'C03': "Exploration: the builder side is under Verus contracts - write_into writes header + padded TLVs in order for lists of any length (per-attribute writers proved under C12), every guarded operation keeps the ordering grammar, the sealing workers append the CRC / HMAC of build() with the adjusted length field - and the composition theorems show that these bytes satisfy wf_message (so the verified parser accepts them), have the stated length properties, and expose exactly the builder's attributes in order with their types and value bytes. byte_len / build (iterator map/sum) and the builder query helpers (iterator any/find) are proved too since rule R11 (adaptor chains replaced by their defining loops). What remains assumed or bounded: the crypto crates, clone(), and typed-value equality where a decoder is outside the verifier (UNKNOWN-ATTRIBUTES) - decided by random builder programs against an independent serialiser with independent HMAC/CRC; hence exploration.",
  'C04': "Proof: `Message::validate_integrity` is verified for every accepted message and every credential against the RFC 8489 s14.5/14.6 specification (which exposed attribute is checked, HMAC input = prefix with the length field set to the end of that attribute, truncated SHA-256 lengths, MissingAttribute) with HMAC/MD5 as uninterpreted functions; the builder side (add_message_integrity appends the HMAC of build() with the adjusted length field; the sealed message meets exactly the premises of validate_integrity's Ok clauses) is proved as well. That the hmac/sha crates compute those functions, the key derivation (String concatenation: outside the verifier) and tamper-evidence on concrete messages are bounded (independent HMAC-SHA1/SHA256/MD5 implementation).",
- 'C05': "Exploration: whole-view postconditions of send / handle_stun / take_outstanding_request / request_transaction / cancel / StunRequestState::poll and the exactly-once theorem over them are proved by Verus; the one link that is not (StunAgent::poll's `values_mut` loop, which turns a per-request verdict into removal) is decided by the bounded stand-in stepping the real agent against an abstract agent - so the property as a whole is claimed at exploration.",
- 'C06': "Exploration: the per-request schedule (StunRequestState::new defaults and poll for schedules of any length and all instants) is proved by Verus; configure_timeout is proved as well for the property's configuration range (rule R11 replaces `(0..n).map(..).collect()` / `.fold(..)` by their defining loops; Duration arithmetic through trusted axioms): exactly `retransmits` entries initial_rto*2^i, the TCP sum, nothing else changed. The agent-level minimum over transactions (StunAgent::poll's values_mut loop) is bounded (exhaustive small-scope histories, random histories with early/exact/late polls at microsecond resolution) - hence exploration.",
+ 'C05': "Proof: whole-view postconditions of send / handle_stun / take_outstanding_request / request_transaction / cancel / cancel_retransmissions / configure_timeout / StunRequestState::poll and - since the third session - StunAgent::poll (its `for .. in values_mut()` loop replaced by its definition, rule R13, over trusted axioms for BTreeMap::values_mut) are proved by Verus for any number of outstanding transactions: a completion is reported only for an outstanding transaction with that verdict and removes exactly it; the exactly-once theorem is an induction over these postconditions. The bounded stand-in (exhaustive small-scope histories against an abstract agent) remains as cross-check of the trusted iterator axioms and witness finder.",
+ 'C06': "Proof: the per-request schedule (StunRequestState::new defaults and poll for schedules of any length and all instants) is proved by Verus; configure_timeout is proved as well for the property's configuration range (rule R11 replaces `(0..n).map(..).collect()` / `.fold(..)` by their defining loops; Duration arithmetic through trusted axioms): exactly `retransmits` entries initial_rto*2^i, the TCP sum, nothing else changed. The agent-level poll is proved too (rule R13 over trusted BTreeMap::values_mut axioms): WaitUntil(t) iff every outstanding transaction waits, t the earliest due instant; lemma_wait_until_law gives 'earlier: same t, no event; at t: an event'. Exhaustive small-scope and random histories (early/exact/late polls at microsecond resolution) remain as bounded cross-check.",
  'C07': "Proof: handle_stun's postcondition (delivered => outstanding and, if the request was sealed, remote credentials set and validate_integrity Ok; otherwise Drop with the whole abstract state unchanged) and request_had_credentials <=> builder has an integrity attribute are verified by Verus for all inputs; validate_integrity itself is C04. End-to-end with real HMACs is bounded.",
  'C08': "Exploration: decode side proved - 14 typed decoders in Verus for value strings of ANY length (UTF-8 via vstd::utf8), 5 in Kani (complete); encode side proved for to_raw/length of the string types and the in-place writers of 15 types (C12). Still bounded only: UNKNOWN-ATTRIBUTES decoder (chunks_exact: no vstd specification, and the ghost-iterator traits cannot be implemented for a std type from outside vstd), the &str constructors - hence exploration.",
  'C09': "Proof: an accepted buffer with a FINGERPRINT at offset o satisfies value == crc32(bytes[..o] with length field o+8-20) ^ 0x5354554e and o+8 == len (clause fp_ok of wf_message, verified for all buffers); XOR constant by Kani for all 2^32 values; the builder side (add_fingerprint appends crc32 of build() with the length field + 8, xor the constant; the sealed serialisation satisfies fp_ok and is accepted by the parser) is proved, build() included (rule R11). That Fingerprint::compute is CRC-32/ISO-HDLC and the corruption sweeps are bounded.",
@@ -331,10 +336,10 @@ LEVEL_TEXT = {
  'C12': "Exploration: for raw attributes and 15 typed attributes the in-place writer, the size guard of write_into and to_bytes are proved equal to the RFC TLV layout for values of any length (Verus), 4 more types by Kani; MessageBuilder::write_into's guard / exact-or-larger / nothing-beyond clauses are proved for attribute lists of any length (Verus). build() == write_into() bytes and byte_len() are proved as well (rule R11 replaces the iterator map/sum by its defining loop). clone() (derived; no Verus specification for a derived Clone of a non-Copy type) is bounded - hence exploration.",
  'C13': "Proof: complete Kani harnesses over all IPv4/IPv6 addresses x ports x transaction ids (fixed trip-count loops unwound with assertions): round trip, RFC wire bytes, other transaction id.",
  'C14': "Proof: push_data/pull_data/take verified against the abstract pull step; the stream-level statement (any frame list, any chunking, any interleaving) is theorem_history, an induction over those contracts (unique decoding of the length-prefixed stream).",
- 'C15': "Proof: whole-set postconditions on validated_peers for every operation in Verus and theorem_peers (monotone; validated exactly by an Incoming/Deliver event from that address). StunAgent::poll never names the set (bounded confirmation).",
+ 'C15': "Proof: whole-set postconditions on validated_peers for every operation in Verus and theorem_peers (monotone; validated exactly by an Incoming/Deliver event from that address). StunAgent::poll is proved to leave the set unchanged.",
  'C16': "Proof: comprehension_required is proved for all 65536 types (Verus and Kani); Message::check_attribute_types is verified for every accepted request and supported / required lists of any length against the statement's verdict (420 listing exactly the exposed unsupported comprehension-required types in message order, else 400 if a required type is not exposed, else nothing) - its four iterator chains (map/filter/collect, any, nested any) are replaced by their defining loops (rule R11), closures verbatim; the response constructors (class error, the request's method and id, ERROR-CODE 400/420, the listed types), the attribute writers / raw conversions of SOFTWARE, ERROR-CODE and UNKNOWN-ATTRIBUTES (units attrs, writers_lists), into_owned, build() and the theorem that an unsealed builder's bytes satisfy wf_message - for which the parser is proved to answer Ok - close 'parses back'. Software::new is checked by Kani on the one literal used. Bounded enumeration against an RFC 8489 s6.3.1 oracle remains as cross-check and witness finder.",
  'C17': "Proof: the [C17.short]/[C17.exact] clauses of from_bytes, the header decoder's contract and lemma_prefix_truncated give the statement for every well-formed message and every cut point, no bound.",
- 'C18': "Exploration: bytes captured once (new), SendData carries them with the same 5-tuple (request poll), send returns the unmodified serialisation, peer_address - all Verus; forwarding through StunAgent::poll is bounded.",
+ 'C18': "Proof: bytes captured once (new), SendData carries them with the same 5-tuple (request poll), send returns the unmodified serialisation, peer_address, and - since the third session - StunAgent::poll forwards exactly the Transmit of an outstanding transaction and changes nothing of any other one (rule R13 over trusted BTreeMap::values_mut axioms): all Verus, any number of transactions. BX histories remain as cross-check.",
  'C19': "Proof: complete Kani harnesses over all 4x4096 (class, method) pairs, all 65536 field values and all u128 ids; Verus for Message::{get_type,transaction_id} and the header decoder. Header writer placement is proved (MessageBuilder::write_into / build, unit builder); generated ids are bounded (rand).",
  'C20': "Exploration: every extracted agent function is verified in a closed world against contracts over (state, arguments) only (an ambient source would be an unsupported call and is reported for this property); shift invariance of the request poll contract; whole-agent shifted replay in another instance / thread is bounded.",
 }
